@@ -1,0 +1,26 @@
+//go:build verif
+
+// Contracts for package translate (property C13: data codecs round-trip). Comments only.
+package translate
+
+// plainSet(v): a set value that is none of the shapes the strict encoding has a tag for
+//@ spec plainSet(v) = v is rel.Set && !(v is rel.Number) && !(v is rel.String) && !(v is *rel.GenericTuple) && !(v is rel.Array) && !(v is rel.Dict) && !(v is rel.EmptySet) && !(v is *rel.EmptySet)
+
+// FromArrai: values the target format cannot represent are errors, never a silently different tree.
+//@ func (Translator).FromArrai(t; v)
+//@   tags C13, C10
+//@   returns (out, err)
+//@   ensures[C13] strictset: (t.strict && plainSet(v)) ==> err != nil
+//@   ensures[C13] other: (!(v is rel.Set) && !(v is rel.Number) && !(v is *rel.GenericTuple) && !(v is *rel.EmptySet)) ==> err != nil
+
+//@ func (Translator).objFromArraiDict(t; v)
+//@   tags C13, C10
+//@   returns (out, err)
+
+//@ func (Translator).objFromArraiTuple(t; v)
+//@   tags C13, C10
+//@   returns (out, err)
+
+//@ func (Translator).arrFromArrai(t; s)
+//@   tags C13, C10
+//@   returns (out, err)
